@@ -1,5 +1,6 @@
 import BfeVerif.C32.ClassProofs
 import BfeVerif.C32.TotalProofs
+import BfeVerif.C32.ChunkProofs
 /-!
   C32 — HTTP/2 frames round-trip and malformed frames are rejected.  Property theorems only.
 
@@ -780,6 +781,183 @@ theorem C32_total_settings_loop (fr fr' : Framer) (inp rest : Bytes) (f : Frame)
 /-- a witness that the checked operations do fail when a guard is missing: the slicing of the
     `Value` loop on a 5-byte payload (what the dropped `len % 6` check would reach) panics. -/
 example : Checked.valueLoop 6 [0, 4, 0, 0, 0] 4 = none := by decide
+
+/-- **C32 (segmentation)**: the framer's read loop on ANY chunking of the input — cuts inside the 9-byte
+    header, inside the payload, byte by byte, with empty reads, last data delivered together with io.EOF —
+    returns exactly what it returns on the concatenation (io.ReadFull modelled as the ReadAtLeast loop). -/
+theorem C32_chunking (fuel : Nat) (fr : Framer) (r : Rd) : readAllR fuel fr r = readAll fuel fr r.rest :=
+  readAllR_eq fuel fr r
+
+theorem C32_chunking_frame (fr : Framer) (r : Rd) :
+    readFrame fr r.rest = ((readFrameR fr r).1, (readFrameR fr r).2.1, (readFrameR fr r).2.2.rest) :=
+  readFrameR_eq fr r
+
+/-- `io.ReadFull` on a scripted reader: the first `want` bytes of the concatenation, or EOF (nothing
+    read) / ErrUnexpectedEOF (partial), whatever the chunking. -/
+theorem C32_readFull (r : Rd) (want : Nat) :
+    (r.rest.length ≥ want →
+      (readFull (r.chunks.length + 2) r want []).1 = .ok (r.rest.take want) ∧
+      (readFull (r.chunks.length + 2) r want []).2.rest = r.rest.drop want) ∧
+    (r.rest.length < want →
+      (readFull (r.chunks.length + 2) r want []).1 = .error (if r.rest.isEmpty then .eof else .ueof)) := by
+  have h := readFull_spec (r.chunks.length + 2) r want [] (Nat.le_refl _) (by simp)
+  simp only [List.length_nil, Nat.zero_add, Nat.sub_zero, List.nil_append, List.isEmpty_nil, Bool.true_and] at h
+  exact ⟨fun hw => ⟨(h.1 hw).1, (h.1 hw).2.1⟩, fun hw => (h.2 hw).1⟩
+
+/-- **C32 (write side, over-long payloads)**: every `Write*` method returns `ErrFrameTooLarge` exactly
+    when its own checks pass and the payload it assembled has 2^24 bytes or more, and otherwise writes
+    9 + payload bytes (`wPayloadLen` = the length formula per frame type). -/
+theorem C32_write_size (allow : Bool) (w : W) :
+    (∀ bs, runW allow w = .ok bs → bs.length = 9 + wPayloadLen w ∧ wPayloadLen w < 16777216) ∧
+    (runW allow w = .error .tooLarge → wPayloadLen w ≥ 16777216) := by
+  have key : ∀ (t f s : Nat) (p : Bytes),
+      (∀ bs, endWrite t f s p = .ok bs → bs.length = 9 + p.length ∧ p.length < 16777216) ∧
+      (endWrite t f s p = .error .tooLarge → p.length ≥ 16777216) := by
+    intro t f s p
+    unfold endWrite
+    split
+    · exact ⟨fun bs h => (by cases h), fun _ => (by omega)⟩
+    · refine ⟨fun bs h => ?_, fun h => (by cases h)⟩
+      injection h with h; subst h
+      simp [put32]; omega
+  have hz : ∀ n : Nat, (List.replicate n (0 : Nat)).length = n := fun n => List.length_replicate
+  cases w with
+  | data sid es d pad =>
+    cases pad with
+    | none =>
+      simp only [runW, writeData, wPayloadLen]
+      split
+      · exact ⟨fun bs h => (by cases h), fun h => (by cases h)⟩
+      · exact key _ _ _ _
+    | some pd =>
+      simp only [runW, writeData, wPayloadLen]
+      split
+      · exact ⟨fun bs h => (by cases h), fun h => (by cases h)⟩
+      · split
+        · exact ⟨fun bs h => (by cases h), fun h => (by cases h)⟩
+        · have := key 0 (b2n es 1 + 8) sid (pd.length :: (d ++ pd))
+          simp only [List.length_cons, List.length_append] at this
+          constructor
+          · intro bs h; have := this.1 bs h; omega
+          · intro h; have := this.2 h; omega
+  | headers sid es eh pl pr frag =>
+    simp only [runW, writeHeaders, wPayloadLen]
+    split
+    · exact ⟨fun bs h => (by cases h), fun h => (by cases h)⟩
+    · split
+      · exact ⟨fun bs h => (by cases h), fun h => (by cases h)⟩
+      · have := key 1 (b2n (pl != 0) 8 + b2n es 1 + b2n eh 4 + b2n (pr != Prio.zero) 32) sid
+          ((if (pl != 0) = true then [pl] else []) ++ (if (pr != Prio.zero) = true then prioBytes pr else []) ++ frag ++
+            List.replicate pl 0)
+        have h1 : (if (pl != 0) = true then [pl] else ([] : Bytes)).length = (if (pl != 0) = true then 1 else 0) := by
+          split <;> rfl
+        have h2 : (if (pr != Prio.zero) = true then prioBytes pr else ([] : Bytes)).length =
+            (if (pr != Prio.zero) = true then 5 else 0) := by
+          split
+          · simp [prioBytes, put32]
+          · rfl
+        simp only [List.length_append, List.length_replicate, h1, h2] at this
+        exact this
+  | priority sid pr =>
+    simp only [runW, writePriority, wPayloadLen]
+    split
+    · exact ⟨fun bs h => (by cases h), fun h => (by cases h)⟩
+    · have := key 2 0 sid (prioBytes pr)
+      simp only [prioBytes, put32, List.length_append, List.length_cons, List.length_nil] at this
+      exact this
+  | rst sid c =>
+    simp only [runW, writeRST, wPayloadLen]
+    split
+    · exact ⟨fun bs h => (by cases h), fun h => (by cases h)⟩
+    · have := key 3 0 sid (put32 c)
+      simp only [put32, List.length_cons, List.length_nil] at this
+      exact this
+  | settings ss =>
+    simp only [runW, writeSettings, wPayloadLen]
+    have := key 4 0 0 (encSettings ss)
+    rw [encSettings_length] at this
+    exact this
+  | settingsAck =>
+    simp only [runW, writeSettingsAck, wPayloadLen]
+    exact key 4 1 0 []
+  | pushPromise sid pr eh pl frag =>
+    simp only [runW, writePushPromise, wPayloadLen]
+    split
+    · exact ⟨fun bs h => (by cases h), fun h => (by cases h)⟩
+    · split
+      · exact ⟨fun bs h => (by cases h), fun h => (by cases h)⟩
+      · have := key 5 (b2n (pl != 0) 8 + b2n eh 4) sid
+          ((if (pl != 0) = true then [pl] else []) ++ put32 pr ++ frag ++ List.replicate pl 0)
+        have h1 : (if (pl != 0) = true then [pl] else ([] : Bytes)).length = (if (pl != 0) = true then 1 else 0) := by
+          split <;> rfl
+        simp only [List.length_append, List.length_replicate, h1, put32, List.length_cons, List.length_nil] at this
+        exact this
+  | ping ack d =>
+    simp only [runW, writePing, wPayloadLen]
+    exact key _ _ _ _
+  | goAway l c d =>
+    simp only [runW, writeGoAway, wPayloadLen]
+    have := key 7 0 0 (put32 (low31 l) ++ put32 c ++ d)
+    simp only [put32, List.length_append, List.length_cons, List.length_nil] at this
+    constructor
+    · intro bs h; have := this.1 bs h; omega
+    · intro h; have := this.2 h; omega
+  | windowUpdate sid inc =>
+    simp only [runW, writeWindowUpdate, wPayloadLen]
+    split
+    · exact ⟨fun bs h => (by cases h), fun h => (by cases h)⟩
+    · have := key 8 0 sid (put32 inc)
+      simp only [put32, List.length_cons, List.length_nil] at this
+      exact this
+  | continuation sid eh frag =>
+    simp only [runW, writeContinuation, wPayloadLen]
+    split
+    · exact ⟨fun bs h => (by cases h), fun h => (by cases h)⟩
+    · exact key _ _ _ _
+  | raw t f sid p =>
+    simp only [runW, writeRaw, wPayloadLen]
+    exact key _ _ _ _
+
+/-- the sized writer calls of the harness (`wb` ops) have the payload length the driver computes -/
+theorem C32_big_sized (kind : String) (n pl : Nat) (w : W) (h : mkBig kind n pl = some w) :
+    wPayloadLen w = sizedLen kind n pl := by
+  unfold mkBig at h
+  unfold sizedLen
+  simp only at h
+  split at h
+  · rename_i hk
+    injection h with h; subst h
+    by_cases hp : pl = 0
+    · simp [hk, hp, wPayloadLen]
+    · simp [hk, hp, wPayloadLen]
+  · rename_i hD
+    split at h
+    · rename_i hk; injection h with h; subst h; simp [hD, hk, wPayloadLen, Prio.zero]
+    · rename_i hH
+      split at h
+      · rename_i hk; injection h with h; subst h; simp [hD, hH, hk, wPayloadLen]
+      · rename_i hU
+        split at h
+        · rename_i hk; injection h with h; subst h
+          have e1 : ("C" == "G") = false := by decide
+          have e2 : ("C" == "S") = false := by decide
+          simp only [beq_iff_eq] at hk
+          subst hk
+          simp [hD, hH, hU, e1, e2, wPayloadLen]
+        · rename_i hC
+          split at h
+          · rename_i hk; injection h with h; subst h; simp [hD, hH, hU, hk, wPayloadLen]
+          · rename_i hG
+            split at h
+            · rename_i hk; injection h with h; subst h
+              simp only [beq_iff_eq] at hk
+              subst hk
+              have e2 : ("X" == "S") = false := by decide
+              simp [hD, hH, hU, hG, e2, wPayloadLen]
+            · rename_i hX
+              split at h
+              · rename_i hk; injection h with h; subst h; simp [hD, hH, hU, hG, hk, wPayloadLen]
+              · cases h
 
 /-! Non-vacuity -/
 example : expectRT (.headers 3 true false 2 ⟨1, true, 200⟩ [1, 2, 3]) =
